@@ -115,3 +115,380 @@ Proof.
     (destruct (dd_data true _) as [d o2]; unfold dd_finish; cbn [negb orb f_noempty FL_DONE andb];
      now apply handler_calls_done).
 Qed.
+
+(* ------------------------------------------------------------------ done exactly once, on the last invocation *)
+Definition DoneInv (s : st) : Prop :=
+  match s_phase s with Completed => done_last (s_calls s) | _ => all_notdone (s_calls s) end.
+
+Lemma complete_phase s : s_phase (complete s) = Completed.
+Proof. unfold complete. now destruct (deliver_data _ _ _). Qed.
+Lemma complete_done s : all_notdone (s_calls s) -> done_last (s_calls (complete s)).
+Proof.
+  intros H. unfold complete. pose proof (deliver_done (s_stopped s) (s_op s)) as D.
+  destruct (deliver_data _ _ _) as [o cs]. cbn in *.
+  destruct D as (pre & k & -> & Hk & Hp). exists (s_calls s ++ pre), k.
+  rewrite app_assoc. repeat split; auto. apply Forall_app; auto.
+Qed.
+Lemma complete_DoneInv s : all_notdone (s_calls s) -> DoneInv (complete s).
+Proof. intros. unfold DoneInv. rewrite complete_phase. now apply complete_done. Qed.
+
+Lemma with_deliver_phase s fl ph : s_phase (with_deliver s fl ph) = ph.
+Proof. unfold with_deliver. now destruct (deliver_data _ _ _). Qed.
+Lemma with_deliver_notdone s fl ph : f_done fl = false -> all_notdone (s_calls s) ->
+  all_notdone (s_calls (with_deliver s fl ph)).
+Proof.
+  intros Hf H. unfold with_deliver. pose proof (deliver_notdone (s_stopped s) fl (s_op s) Hf) as D.
+  destruct (deliver_data _ _ _) as [o cs]. cbn in *. apply Forall_app; auto.
+Qed.
+Lemma with_deliver_DoneInv s fl ph : ph <> Completed -> f_done fl = false -> all_notdone (s_calls s) ->
+  DoneInv (with_deliver s fl ph).
+Proof.
+  intros. unfold DoneInv. rewrite with_deliver_phase. destruct ph; try congruence; now apply with_deliver_notdone.
+Qed.
+
+Lemma step_DoneInv c s e : DoneInv s -> DoneInv (step c s e).
+Proof.
+  intros H. unfold DoneInv in H.
+  destruct e; cbn [step]; try exact H.
+  - (* Check *) destruct (s_phase s) eqn:P; try (unfold DoneInv; now rewrite P).
+    destruct (negb _).
+    + apply complete_DoneInv. exact H.
+    + destruct (_ && _).
+      * apply with_deliver_DoneInv; auto; discriminate.
+      * unfold DoneInv. cbn. exact H.
+  - (* Perform *) destruct (s_phase s) eqn:P; try (unfold DoneInv; now rewrite P).
+    destruct (perform _ _ _ _ _ _) as [[[o r] f] moved]. unfold DoneInv. cbn. exact H.
+  - (* Act *) destruct (s_phase s) eqn:P; try (unfold DoneInv; now rewrite P).
+    assert (Hw : forall fl, f_done fl = false -> all_notdone (s_calls (with_deliver s fl Idle)))
+      by (intros; now apply with_deliver_notdone).
+    repeat (match goal with |- context [if ?b then _ else _] => destruct b end);
+      try (apply complete_DoneInv; auto; fail);
+      try (apply with_deliver_DoneInv; auto; discriminate);
+      try (unfold DoneInv; cbn; exact H).
+  - (* Timer *) destruct (s_phase s) eqn:P; try (unfold DoneInv; now rewrite P);
+    (destruct (negb _); [unfold DoneInv; now rewrite P|]);
+    (destruct (_ && _); [unfold DoneInv; cbn; try rewrite P; exact H|]);
+    (apply with_deliver_DoneInv; [try rewrite P; discriminate| now destruct (o_strict _) | exact H]).
+  - (* Cleanup *) destruct (s_phase s) eqn:P; try (unfold DoneInv; now rewrite P);
+    (destruct (is_active s); [unfold DoneInv; now rewrite P|]);
+    (destruct fd_wide;
+      [destruct (s_fderr s =? 0); [unfold DoneInv; now rewrite P| apply complete_DoneInv; exact H]
+      |destruct (s_stopped s); [apply complete_DoneInv; exact H | unfold DoneInv; now rewrite P]]).
+Qed.
+
+Lemma run_DoneInv c evs : forall s, DoneInv s -> DoneInv (run c s evs).
+Proof. induction evs; intros; simpl; auto. apply IHevs. now apply step_DoneInv. Qed.
+
+(* once completed the operation is inert: the handler is never invoked again *)
+Lemma step_completed c s e : s_phase s = Completed ->
+  s_phase (step c s e) = Completed /\ s_calls (step c s e) = s_calls s /\ s_io (step c s e) = s_io s.
+Proof. intros P. destruct e; cbn [step]; rewrite ?P; cbn; auto. Qed.
+
+Theorem done_exactly_once_last : forall c o evs,
+  let s := run c (st_init o) evs in
+  (s_phase s = Completed -> done_last (s_calls s)) /\
+  (s_phase s <> Completed -> all_notdone (s_calls s)) /\
+  (forall e, s_phase s = Completed -> s_calls (step c s e) = s_calls s).
+Proof.
+  intros. assert (D : DoneInv s) by (apply run_DoneInv; unfold DoneInv; cbn; constructor).
+  unfold DoneInv in D. repeat split.
+  - intros P. now rewrite P in D.
+  - intros P. destruct (s_phase s); try congruence; exact D.
+  - intros e P. now apply step_completed.
+Qed.
+
+(* ------------------------------------------------------------------ reads: conservation and high water *)
+Definition pending (o : op) : list Z := flat (o_data o) ++ o_buf o.
+Definition small (hi : Z) (cs : list call) : Prop := Forall (fun k => zlen (cbytes k) <= hi) cs.
+
+Definition RInv (o : op) : Prop :=
+  o_write o = false /\
+  o_buf_len o = zlen (o_buf o) /\
+  o_undelivered o = dsize (o_data o) /\
+  (o_hasbuf o = false -> o_buf o = []) /\
+  (o_hasbuf o = true -> zlen (o_buf o) <= o_buf_siz o /\ dsize (o_data o) + o_buf_siz o <= o_high o) /\
+  (dsize (o_data o) = 0 \/ dsize (o_data o) < o_low o) /\
+  (0 <= o_low o <= o_high o /\ 1 <= o_high o <= SIZE_MAX) /\
+  (o_length o < SIZE_MAX -> o_total o <= o_length o /\
+     (o_hasbuf o = true -> o_total o - zlen (o_buf o) + o_buf_siz o <= o_length o)).
+
+Ltac bd :=
+  match goal with
+  | H : context [?a >=? ?b] |- _ => rewrite (Z.geb_leb a b) in H
+  | H : context [?a >? ?b] |- _ => rewrite (Z.gtb_ltb a b) in H
+  | H : context [?a <=? ?b] |- _ => destruct (Z.leb_spec a b)
+  | H : context [?a <? ?b] |- _ => destruct (Z.ltb_spec a b)
+  | H : context [?a =? ?b] |- _ => destruct (Z.eqb_spec a b)
+  end.
+
+Lemma cdata_handler_read fl forced d err tot :
+  cdata (handler_calls false fl forced d err tot) = flat d /\ small (dsize d) (handler_calls false fl forced d err tot).
+Proof.
+  unfold handler_calls, small. cbn [negb andb].
+  destruct (f_done fl).
+  - destruct (Z.eqb_spec err 0); cbn [negb].
+    + unfold cdata, cbytes; cbn. rewrite app_nil_r. split; auto. repeat constructor. cbn. unfold dsize. lia.
+    + destruct (Z.eqb_spec (dsize d) 0); cbn [negb].
+      * pose proof (dsize_0_flat d e) as F. rewrite F. unfold cdata, cbytes; cbn. split; auto.
+        repeat constructor. cbn. unfold zlen; simpl; lia.
+      * unfold cdata, cbytes; cbn. rewrite app_nil_r. split; auto.
+        pose proof (zlen_nonneg (flat d)). repeat constructor; cbn; unfold dsize, zlen in *; simpl; try lia.
+  - unfold cdata, cbytes; cbn. rewrite app_nil_r. split; auto. repeat constructor. cbn. unfold dsize. lia.
+Qed.
+
+Ltac fin Hb Htot :=
+  repeat split; auto; try lia; try discriminate;
+  try (match goal with HH : o_hasbuf _ = true |- _ => destruct (Hb HH); lia end);
+  try (intros; apply Htot; auto; fail);
+  try (match goal with HH : o_length _ < SIZE_MAX |- _ => destruct (Htot HH) as [? ?]; try lia; try (split; [lia|discriminate]) end);
+  try constructor.
+
+Lemma deliver_read stp fl o o' cs : RInv o -> deliver_data stp fl o = (o', cs) ->
+  RInv o' /\ cdata cs ++ pending o' = pending o /\ small (o_high o) cs /\
+  o_total o' = o_total o /\ o_high o' = o_high o /\ o_length o' = o_length o /\ o_low o' = o_low o.
+Proof.
+  intros (Hd & Hl & Hu & Hnb & Hb & Hdat & Hpar & Htot) E.
+  unfold deliver_data in E.
+  set (und := o_undelivered o + o_buf_len o) in *.
+  set (forced := f_deliver fl || f_done fl || o_flagd o) in *.
+  assert (Hund : und = dsize (o_data o) + zlen (o_buf o)) by (unfold und; lia).
+  pose proof (dsize_nonneg (o_data o)) as Hdn. pose proof (zlen_nonneg (o_buf o)) as Hzn.
+  assert (Hsz : dsize (o_data o) + zlen (o_buf o) <= o_high o).
+  { destruct (o_hasbuf o) eqn:HB.
+    - destruct (Hb eq_refl). lia.
+    - rewrite (Hnb eq_refl), zlen_nil. lia. }
+  (* what the data stage does, for either value of deliver and any err *)
+  assert (K : forall deliver err o1, 
+     (o1 = set_flagd o false \/ o1 = set_err (set_flagd o false) err) ->
+     (deliver = false -> und < o_low o /\ ~ (zlen (o_buf o) < o_buf_siz o)) ->
+     forall err', (let '(d, o2) := dd_data deliver o1 in dd_finish fl forced deliver err' und d o2) = (o', cs) ->
+     RInv o' /\ cdata cs ++ pending o' = pending o /\ small (o_high o) cs /\
+     o_total o' = o_total o /\ o_high o' = o_high o /\ o_length o' = o_length o /\ o_low o' = o_low o).
+  { intros deliver err o1 Ho1 Hnd err' E1.
+    unfold dd_data in E1.
+    assert (W : o_write o1 = false) by (destruct Ho1; subst; cbn; auto). rewrite W in E1. cbn [negb] in E1.
+    assert (BL : o_buf_len o1 = zlen (o_buf o)) by (destruct Ho1; subst; cbn; auto). rewrite BL in E1.
+    destruct (Z.eqb_spec (zlen (o_buf o)) 0) as [Z0|Z0]; cbn [negb] in E1.
+    - (* no buffered bytes *)
+      pose proof (zlen_0_nil _ Z0) as Bn.
+      unfold dd_finish in E1.
+      destruct deliver; cbn [negb orb] in E1.
+      + destruct (f_noempty fl && (dsize (o_data o1) =? 0)) eqn:NE.
+        * inversion E1; subst o' cs; clear E1.
+          apply andb_prop in NE. destruct NE as [_ NE]. apply Z.eqb_eq in NE.
+          assert (DD : dsize (o_data o) = 0) by (destruct Ho1; subst; cbn in NE; auto).
+          unfold RInv, pending. destruct Ho1; subst o1; cbn; rewrite ?Bn, ?zlen_nil, ?dsize_nil in *;
+            (fin Hb Htot; try (rewrite (dsize_0_flat _ DD); reflexivity)).
+        * inversion E1; subst o' cs; clear E1.
+          assert (OD : o_data o1 = o_data o) by (destruct Ho1; subst; cbn; auto).
+          match goal with |- context [handler_calls ?w fl forced ?d err' ?t] =>
+            assert (W2 : w = false) by (destruct Ho1; subst; cbn; auto); rewrite W2;
+            destruct (cdata_handler_read fl forced d err' t) as [C1 C2] end.
+          rewrite C1, OD. rewrite OD in C2.
+          unfold RInv, pending. destruct Ho1; subst o1; cbn; rewrite ?Bn, ?zlen_nil, ?dsize_nil, ?app_nil_r in *;
+            (try (split; [|split; [|split; [eapply Forall_impl; [|exact C2]; cbn; intros; lia|]]]); fin Hb Htot).
+      + (* buffer used up, nothing to move *)
+        inversion E1; subst o' cs; clear E1.
+        destruct (Hnd eq_refl) as [Hlow _].
+        unfold RInv, pending. destruct Ho1; subst o1; cbn; rewrite ?Bn, ?zlen_nil in *;
+          (fin Hb Htot).
+    - (* buffered bytes move into the data object *)
+      unfold dd_finish in E1.
+      assert (OD : o_data o1 = o_data o) by (destruct Ho1; subst; cbn; auto).
+      assert (OB : o_buf o1 = o_buf o) by (destruct Ho1; subst; cbn; auto).
+      rewrite OD, OB in E1.
+      destruct deliver; cbn [negb orb] in E1.
+      + destruct (f_noempty fl && (dsize (o_data o ++ [o_buf o]) =? 0)) eqn:NE.
+        * apply andb_prop in NE. destruct NE as [_ NE]. apply Z.eqb_eq in NE. rewrite dsize_snoc in NE.
+          pose proof (dsize_nonneg (o_data o)). pose proof (zlen_nonneg (o_buf o)). lia.
+        * inversion E1; subst o' cs; clear E1.
+          match goal with |- context [handler_calls ?w fl forced ?d err' ?t] =>
+            assert (W2 : w = false) by (destruct Ho1; subst; cbn; auto); rewrite W2;
+            destruct (cdata_handler_read fl forced d err' t) as [C1 C2] end.
+          rewrite C1. rewrite dsize_snoc in C2.
+          unfold RInv, pending. destruct Ho1; subst o1; cbn; rewrite ?flat_snoc, ?zlen_nil, ?dsize_nil, ?app_nil_r in *;
+            (try (split; [|split; [|split; [eapply Forall_impl; [|exact C2]; cbn; intros; lia|]]]); fin Hb Htot).
+      + inversion E1; subst o' cs; clear E1.
+        destruct (Hnd eq_refl) as [Hlow _].
+        unfold RInv, pending. destruct Ho1; subst o1; cbn; rewrite ?flat_snoc, ?dsize_snoc, ?zlen_nil, ?app_nil_r in *;
+          (fin Hb Htot). }
+  unfold dd_decide in E.
+  destruct (negb forced).
+  - cbn [o_low set_flagd o_buf_len o_buf_siz] in E.
+    rewrite Z.geb_leb in E. destruct (Z.leb_spec (o_low o) und).
+    + eapply (K true 0 (set_flagd o false)); eauto. discriminate.
+    + destruct (Z.ltb_spec (o_buf_len o) (o_buf_siz o)).
+      * inversion E; subst o' cs. unfold RInv, pending, small. cbn.
+        fin Hb Htot.
+      * eapply (K false 0 (set_flagd o false)); eauto. intros _. split; lia.
+  - destruct ((o_err (set_flagd o false) =? 0) && stp).
+    + eapply (K true ECANCELED (set_err (set_flagd o false) ECANCELED)); eauto. discriminate.
+    + eapply (K true 0 (set_flagd o false)); eauto. discriminate.
+Qed.
+
+Lemma RInv_set_err o e : RInv o -> RInv (set_err o e).
+Proof. unfold RInv. cbn. auto. Qed.
+
+Lemma alloc_read c o : RInv o -> 1 <= chunk_size c ->
+  RInv (alloc_buf c o) /\ pending (alloc_buf c o) = pending o /\ o_hasbuf (alloc_buf c o) = true /\
+  o_total (alloc_buf c o) = o_total o /\ o_high (alloc_buf c o) = o_high o /\
+  o_length (alloc_buf c o) = o_length o /\ o_low (alloc_buf c o) = o_low o /\ o_write (alloc_buf c o) = false /\
+  o_buf_len (alloc_buf c o) = zlen (o_buf (alloc_buf c o)).
+Proof.
+  intros (Hd & Hl & Hu & Hnb & Hb & Hdat & Hpar & Htot) Hc.
+  pose proof (dsize_nonneg (o_data o)) as Hdn.
+  unfold alloc_buf. destruct (o_hasbuf o) eqn:HB.
+  - unfold RInv. repeat split; auto; try (apply Hb; auto); try (apply Htot; auto); try lia;
+      try (rewrite HB; discriminate).
+  - rewrite Hd. cbn [negb].
+    pose proof (Hnb eq_refl) as Bn. rewrite Bn in *. change (zlen (@nil Z)) with 0 in *.
+    set (max1 := if dsize (o_data o) =? 0 then o_high o else u64 (o_high o - dsize (o_data o))).
+    assert (M1 : 1 <= max1 /\ dsize (o_data o) + max1 <= o_high o).
+    { unfold max1. destruct (Z.eqb_spec (dsize (o_data o)) 0). lia.
+      rewrite u64_id; unfold SIZE_MAX in *; lia. }
+    set (max2 := if max1 >? chunk_size c then chunk_size c else max1).
+    assert (M2 : 1 <= max2 <= max1) by (unfold max2; rewrite Z.gtb_ltb; destruct (Z.ltb_spec (chunk_size c) max1); lia).
+    set (bs := if o_length o <? SIZE_MAX then
+                 let b := o_length o - o_total o in if b >? max2 then max2 else b else max2).
+    assert (B : 0 <= bs <= max2 /\ (o_length o < SIZE_MAX -> o_total o + bs <= o_length o)).
+    { unfold bs. destruct (Z.ltb_spec (o_length o) SIZE_MAX).
+      - destruct (Htot H) as [T _]. cbn zeta. rewrite Z.gtb_ltb. destruct (Z.ltb_spec max2 (o_length o - o_total o)); lia.
+      - lia. }
+    unfold RInv, pending. cbn. rewrite ?Bn. change (zlen (@nil Z)) with 0.
+    repeat split; auto; try lia; try discriminate.
+    all: try (intros HH; destruct (Htot HH); lia).
+Qed.
+
+Lemma perform_error_read o fd e o' r f : RInv o -> perform_error o fd e = (o', r, f) ->
+  RInv o' /\ pending o' = pending o /\ o_total o' = o_total o /\ o_high o' = o_high o /\
+  o_length o' = o_length o /\ o_low o' = o_low o.
+Proof.
+  intros R E. unfold perform_error in E.
+  repeat (match type of E with context [if ?b then _ else _] => destruct b end);
+    inversion E; subst; auto 10; (split; [now apply RInv_set_err|cbn; auto 10]).
+Qed.
+
+Lemma perform_read c cl stp fd o rs o' r f moved :
+  RInv o -> 1 <= chunk_size c ->
+  (match first_result rs with Some (Got bs) => zlen bs <= req_len c o | _ => True end) ->
+  perform c cl stp fd o rs = (o', r, f, moved) ->
+  RInv o' /\ pending o' = pending o ++ moved /\ o_total o' = o_total o + zlen moved /\ o_high o' = o_high o /\
+  o_length o' = o_length o /\ o_low o' = o_low o.
+Proof.
+  intros R Hc Hok E. unfold perform in E.
+  destruct (negb (get_error cl stp fd true =? 0)).
+  - destruct (perform_error o fd _) as [[o1 r1] f1] eqn:PE. inversion E; subst.
+    rewrite app_nil_r, zlen_nil, Z.add_0_r. eapply perform_error_read; eauto.
+  - destruct (alloc_read c o R Hc) as (RA & PA & HA & TA & HiA & LeA & LoA & WA & BLA).
+    destruct (first_result rs) as [[bs|e]|].
+    + destruct (Z.eqb_spec (zlen bs) 0).
+      * inversion E; subst. rewrite app_nil_r, zlen_nil, Z.add_0_r. auto 10.
+      * rewrite WA in E.
+        assert (E' : (set_total (set_buf (alloc_buf c o) (o_hasbuf (alloc_buf c o)) (o_buf_siz (alloc_buf c o))
+                        (o_buf_len (alloc_buf c o) + zlen bs) (o_buf (alloc_buf c o) ++ bs))
+                        (o_total (alloc_buf c o) + zlen bs), moved) = (o', bs)).
+        { cbn [o_total set_buf set_total o_length] in E.
+          destruct (_ =? _) in E; inversion E; subst; auto. }
+        inversion E'; subst o' moved; clear E E'.
+        unfold req_len in Hok.
+        destruct RA as (Hd & Hl & Hu & Hnb & Hb & Hdat & Hpar & Htot).
+        destruct (Hb HA) as [B1 B2].
+        pose proof (zlen_nonneg bs).
+        unfold RInv, pending in *. cbn. rewrite HA, !zlen_app, <- PA, <- TA, <- HiA, <- LeA, <- LoA.
+        repeat split; auto; try lia; try discriminate.
+        all: try (unfold flat; rewrite app_assoc; reflexivity).
+        all: intros; try (match goal with HH : o_length _ < SIZE_MAX |- _ =>
+                            destruct (Htot HH) as [T1 T2]; specialize (T2 HA); lia end).
+    + destruct (perform_error (alloc_buf c o) fd e) as [[o1 r1] f1] eqn:PE. inversion E; subst.
+      rewrite app_nil_r, zlen_nil, Z.add_0_r.
+      destruct (perform_error_read _ _ _ _ _ _ RA PE) as (A1 & A2 & A3 & A4 & A5 & A6).
+      split; [exact A1|]. repeat split; congruence.
+    + inversion E; subst. rewrite app_nil_r, zlen_nil, Z.add_0_r. auto 10.
+Qed.
+
+(* state invariant for a read operation with high-water mark hi and requested length len *)
+Definition RS (hi len : Z) (o : op) (calls : list call) (io : list Z) : Prop :=
+  RInv o /\ cdata calls ++ pending o = io /\ o_total o = zlen io /\ small hi calls /\ o_high o = hi /\ o_length o = len.
+Definition RSt hi len (s : st) : Prop := RS hi len (s_op s) (s_calls s) (s_io s).
+
+Lemma RS_deliver hi len stp fl o calls io o' cs :
+  RS hi len o calls io -> deliver_data stp fl o = (o', cs) -> RS hi len o' (calls ++ cs) io.
+Proof.
+  intros (R & P & T & S & H & L) E.
+  destruct (deliver_read _ _ _ _ _ R E) as (R' & P' & S' & T' & H' & L' & _).
+  unfold RS. rewrite cdata_app, <- app_assoc, P'.
+  split; [exact R'|]. split; [exact P|]. split; [congruence|].
+  split; [apply Forall_app; split; auto; now rewrite <- H|]. split; congruence.
+Qed.
+Lemma RSt_with_deliver hi len s fl ph : RSt hi len s -> RSt hi len (with_deliver s fl ph).
+Proof.
+  intros H. unfold with_deliver. destruct (deliver_data _ _ _) as [o cs] eqn:E. unfold RSt. cbn.
+  eapply RS_deliver; eauto.
+Qed.
+Lemma RSt_complete hi len s : RSt hi len s -> RSt hi len (complete s).
+Proof.
+  intros H. unfold complete. destruct (deliver_data _ _ _) as [o cs] eqn:E. unfold RSt. cbn.
+  eapply RS_deliver; eauto.
+Qed.
+Lemma RS_set_err hi len o calls io e : RS hi len o calls io -> RS hi len (set_err o e) calls io.
+Proof. intros (R & P & T & S & H & L). unfold RS. split; [now apply RInv_set_err|]. cbn. auto. Qed.
+
+Lemma step_RSt c hi len s e : 1 <= chunk_size c -> RSt hi len s -> result_ok c s e = true -> RSt hi len (step c s e).
+Proof.
+  intros Hc H Hok.
+  destruct e; cbn [step]; try exact H.
+  - destruct (s_phase s); try exact H.
+    destruct (negb _).
+    + apply RSt_complete. unfold RSt. cbn. apply RS_set_err. exact H.
+    + destruct (_ && _); [now apply RSt_with_deliver | exact H].
+  - unfold result_ok in Hok. destruct (s_phase s); try exact H.
+    destruct (perform _ _ _ _ _ _) as [[[o r] f] moved] eqn:E.
+    destruct H as (R & P & T & S & Hh & L).
+    assert (OK : match first_result rs with Some (Got bs) => zlen bs <= req_len c (s_op s) | _ => True end).
+    { destruct (first_result rs) as [[bs|]|]; auto. now apply Z.leb_le. }
+    destruct (perform_read _ _ _ _ _ _ _ _ _ _ R Hc OK E) as (R' & P' & T' & H' & L' & _).
+    unfold RSt, RS. cbn [s_op s_calls s_io]. rewrite P', app_assoc, P, zlen_app.
+    split; [exact R'|]. split; [reflexivity|]. split; [congruence|]. split; [exact S|]. split; congruence.
+  - destruct (s_phase s); try exact H.
+    repeat (match goal with |- context [if ?b then _ else _] => destruct b end);
+      try (apply RSt_complete); try (apply RSt_with_deliver); try exact H.
+  - destruct (s_phase s); try exact H;
+    (destruct (negb _); [exact H|]); (destruct (_ && _); [unfold RSt; cbn; destruct H as (R & P & T & S & Hh & L);
+       unfold RS; (split; [unfold RInv in *; cbn; exact R|]); cbn; auto | now apply RSt_with_deliver]).
+  - destruct (s_phase s); try exact H;
+    (destruct (is_active s); [exact H|]);
+    (destruct fd_wide; [destruct (s_fderr s =? 0); [exact H|apply RSt_complete; unfold RSt; cbn;
+        destruct (o_err (s_op s) =? 0); [apply RS_set_err|]; exact H]
+      | destruct (s_stopped s); [now apply RSt_complete | exact H]]).
+Qed.
+
+Lemma run_RSt c hi len evs : 1 <= chunk_size c -> forall s, RSt hi len s -> run_ok c s evs = true -> RSt hi len (run c s evs).
+Proof.
+  intros Hc. induction evs as [|e t IH]; intros s H Hok; simpl; auto.
+  simpl in Hok. apply andb_prop in Hok. destruct Hok. apply IH; auto. now apply step_RSt.
+Qed.
+
+Definition read_params_ok (p : params) : Prop := 0 <= p_low p <= p_high p /\ 1 <= p_high p <= SIZE_MAX.
+
+Lemma RSt_init disk conv len p iv strict : read_params_ok p -> 0 <= len ->
+  RSt (p_high p) len (st_init (op_init false disk conv len [] p iv strict)).
+Proof.
+  intros (A & B) L. unfold RSt, RS, RInv, pending, small, st_init, op_init. cbn.
+  repeat split; auto; try lia; try discriminate; constructor.
+Qed.
+
+(* completed: nothing is left in the operation *)
+Lemma complete_pending_read hi len s : RSt hi len s -> pending (s_op (complete s)) = [].
+Proof.
+  intros (R & _). unfold complete. destruct (deliver_data _ _ _) as [o cs] eqn:E. cbn.
+  unfold deliver_data in E. cbn [f_deliver f_done FL_DONE orb] in E. unfold dd_decide in E. cbn [negb] in E.
+  destruct R as (Hd & Hl & Hu & Hnb & Hb & _).
+  assert (K : forall err o1, o_write o1 = false -> o_buf_len o1 = zlen (o_buf o1) ->
+     (let '(d, o2) := dd_data true o1 in dd_finish FL_DONE true true err (o_undelivered (s_op s) + o_buf_len (s_op s)) d o2) = (o, cs) ->
+     pending o = []).
+  { intros err o1 W BL E1. unfold dd_data in E1. rewrite W in E1. cbn [negb] in E1.
+    destruct (Z.eqb_spec (o_buf_len o1) 0); cbn [negb] in E1; unfold dd_finish in E1; cbn in E1;
+      inversion E1; subst; unfold pending; cbn; auto.
+    rewrite BL in e. now rewrite (zlen_0_nil _ e). }
+  destruct (_ && _); (eapply K; [| |exact E]; cbn; auto).
+Qed.
